@@ -64,6 +64,10 @@ pub struct Case {
     /// under the path used last.
     #[serde(default)]
     pub rewatch: Option<u8>,
+    /// Per watch: a non-empty subset of the 14 Interest constants (bit i =
+    /// i-th constant of INTERESTS); 0 or absent = Interest::ALL.
+    #[serde(default)]
+    pub interests: Vec<u16>,
 }
 
 const BUF_SIZE: usize = 272;
@@ -198,8 +202,9 @@ impl Property for C17 {
             proptest::collection::vec(prop_oneof![10 => (1u8..8).prop_map(Read::Batch), 1 => Just(Read::Empty), 1 => (0u8..4).prop_map(Read::Error)], 0..10),
             proptest::collection::vec(prop_oneof![4 => Just(0u8), 4 => 1u8..6, 1 => Just(255u8)], 0..14),
             proptest::option::weighted(0.3, 0u8..3),
+            proptest::collection::vec(prop_oneof![2 => Just(0u16), 3 => 1u16..(1 << 14)], 0..=3),
         )
-            .prop_map(|(watches, records, reads, keep, rewatch)| Case { watches, records, reads, keep, rewatch })
+            .prop_map(|(watches, records, reads, keep, rewatch, interests)| Case { watches, records, reads, keep, rewatch, interests })
             .boxed()
     }
 
@@ -212,7 +217,7 @@ impl Property for C17 {
     }
 
     fn rule() -> &'static str {
-        "proptest: a real Watcher (real inotify descriptor, real watches on temporary directories, so the watch table holds real watch descriptors; optionally one directory is renamed and watched a second time, which yields the same watch descriptor and makes the new name the path events are reported under) whose READs are answered by the simulated kernel with generated record batches: names of 0..255 bytes, kernel-rule padding and extra NUL padding, all mask bits, known and unknown watch descriptors, IN_IGNORED and IN_Q_OVERFLOW records, batched into successive reads in every way that keeps records whole and within the 272-byte buffer (the rest of the buffer holds canaries), empty reads, read errors; plus a retention plan saying for how many further yields (or until after the iterator is dropped) the caller keeps each yielded &Event. Oracle: yielded sequence == model (records minus IGNORED/OVERFLOW) with equal wd/mask/cookie, name without padding, path_for == watched path joined with the name (name only for unknown or forgotten wds); error yielded once then None; every retained event, re-read at its planned later point, is unchanged and still inside the live allocation it was in. Non-trivial = a read with >= 2 records, or a record followed by IGNORED for its wd, or a retention that crosses a later read. Distinct = (classes, 16-bit case hash)."
+        "proptest: a real Watcher (real inotify descriptor, real watches on temporary directories, so the watch table holds real watch descriptors; optionally one directory is renamed and watched a second time, which yields the same watch descriptor and makes the new name the path events are reported under) whose READs are answered by the simulated kernel with generated record batches: names of 0..255 bytes, kernel-rule padding and extra NUL padding, all mask bits, known and unknown watch descriptors, IN_IGNORED and IN_Q_OVERFLOW records, batched into successive reads in every way that keeps records whole and within the 272-byte buffer (the rest of the buffer holds canaries), empty reads, read errors; plus a retention plan saying for how many further yields (or until after the iterator is dropped) the caller keeps each yielded &Event. The watches are created with generated Interest subsets; the mask the kernel then holds for the watch (fdinfo) must be the union of inotify(7)'s bits for those interests. Oracle: every Event predicate (is_dir, accessed, modified, ..., file_created, file_deleted, deleted, moved, unmounted) agrees with inotify(7)'s bit for its documented meaning; yielded sequence == model (records minus IGNORED/OVERFLOW) with equal wd/mask/cookie, name without padding, path_for == watched path joined with the name (name only for unknown or forgotten wds); error yielded once then None; every retained event, re-read at its planned later point, is unchanged and still inside the live allocation it was in. Non-trivial = a read with >= 2 records, or a record followed by IGNORED for its wd, or a retention that crosses a later read. Distinct = (classes, 16-bit case hash)."
     }
 
     fn assumptions() -> Vec<&'static str> {
@@ -237,6 +242,42 @@ fn inotify_wds(fd: i32) -> Vec<i32> {
     wds.sort();
     wds
 }
+
+/// The event mask the kernel holds for watch `wd`.
+fn inotify_mask(fd: i32, wd: i32) -> Option<u32> {
+    let text = std::fs::read_to_string(format!("/proc/self/fdinfo/{fd}")).ok()?;
+    for l in text.lines() {
+        let Some(rest) = l.strip_prefix("inotify wd:") else { continue };
+        let mut it = rest.split_whitespace();
+        if i32::from_str_radix(it.next()?, 16).ok()? != wd {
+            continue;
+        }
+        for f in it {
+            if let Some(m) = f.strip_prefix("mask:") {
+                return u32::from_str_radix(m, 16).ok();
+            }
+        }
+    }
+    None
+}
+
+/// Interest constants and the inotify(7) bits their documentation describes.
+const INTERESTS: [(Interest, u32); 14] = [
+    (Interest::ACCESS, 0x1),
+    (Interest::MODIFY, 0x2),
+    (Interest::METADATA, 0x4),
+    (Interest::CLOSE_WRITE, 0x8),
+    (Interest::CLOSE_NOWRITE, 0x10),
+    (Interest::CLOSE, 0x18),
+    (Interest::OPEN, 0x20),
+    (Interest::MOVE_FROM, 0x40),
+    (Interest::MOVE_INTO, 0x80),
+    (Interest::MOVE, 0xc0),
+    (Interest::CREATE, 0x100),
+    (Interest::DELETE, 0x200),
+    (Interest::DELETE_SELF, 0x400),
+    (Interest::MOVE_SELF, 0x800),
+];
 
 fn find_inotify_fd(before: &[i32]) -> Option<i32> {
     (3..1024).find(|fd| !before.contains(fd) && std::fs::read_link(format!("/proc/self/fd/{fd}")).is_ok_and(|p| p.to_string_lossy().contains("inotify")))
@@ -269,11 +310,27 @@ fn run_case(case: &Case, ctx: &mut Ctx) {
     };
     let nwatch = (case.watches as usize).clamp(1, 3);
     let mut wds: Vec<i32> = Vec::new();
-    for d in dirs.iter().take(nwatch) {
+    let mut classes_early: Vec<&'static str> = Vec::new();
+    for (k, d) in dirs.iter().take(nwatch).enumerate() {
         let before = inotify_wds(ifd);
+        let bits = case.interests.get(k).copied().unwrap_or(0) & ((1 << INTERESTS.len()) - 1);
+        let (interest, want_mask) = if bits == 0 {
+            (Interest::ALL, 0xfffu32)
+        } else {
+            let mut it: Option<Interest> = None;
+            let mut m = 0u32;
+            for (i, (flag, raw)) in INTERESTS.iter().enumerate() {
+                if bits & (1 << i) != 0 {
+                    it = Some(it.map_or(*flag, |x| x | *flag));
+                    m |= raw;
+                }
+            }
+            classes_early.push("interest-subset");
+            (it.unwrap(), m)
+        };
         let r = {
             let _s = track::scope(track::TAG_A10);
-            watcher.watch_directory(d.clone(), Interest::ALL, Recursive::No)
+            watcher.watch_directory(d.clone(), interest, Recursive::No)
         };
         if let Err(e) = r {
             ctx.infra(format!("watch_directory failed: {e}"));
@@ -281,7 +338,15 @@ fn run_case(case: &Case, ctx: &mut Ctx) {
         }
         let after = inotify_wds(ifd);
         match after.iter().find(|w| !before.contains(w)) {
-            Some(w) => wds.push(*w),
+            Some(w) => {
+                wds.push(*w);
+                // What the kernel was asked to watch for.
+                if let Some(mask) = inotify_mask(ifd, *w) {
+                    if mask & 0xfff != want_mask {
+                        ctx.violation("C17:interest-mask", format!("watch_directory with interest bits {bits:#x} registered the inotify mask {:#x}, expected {want_mask:#x}", mask & 0xfff));
+                    }
+                }
+            }
             None => {
                 ctx.infra("could not determine the new watch descriptor");
                 return;
@@ -319,7 +384,7 @@ fn run_case(case: &Case, ctx: &mut Ctx) {
     let mut answers: Vec<Result<Vec<u8>, i32>> = Vec::new();
     let mut model: Vec<Result<Expected, i32>> = Vec::new();
     let mut forgotten: Vec<i32> = Vec::new();
-    let mut classes: Vec<&'static str> = Vec::new();
+    let mut classes: Vec<&'static str> = classes_early;
     let mut recs = case.records.iter().peekable();
     let errnos = [libc::EIO, libc::EBADF, libc::ENOMEM, libc::EAGAIN];
     let mut ended = false;
@@ -490,6 +555,33 @@ fn run_case(case: &Case, ctx: &mut Ctx) {
                             if got != *want {
                                 let kind = if got.name != want.name { "wrong-name" } else if got.path != want.path { "wrong-path" } else { "wrong-event" };
                                 fail(ctx, kind, format!("event #{yielded}: got {got:?}, the kernel delivered {want:?}"));
+                            }
+                            // Every predicate against inotify(7)'s bit for the
+                            // documented meaning.
+                            let m = want.mask;
+                            let preds: [(&str, bool, u32); 16] = [
+                                ("is_dir", e.is_dir(), 0x4000_0000),
+                                ("accessed", e.accessed(), 0x1),
+                                ("modified", e.modified(), 0x2),
+                                ("metadata_changed", e.metadata_changed(), 0x4),
+                                ("closed_write", e.closed_write(), 0x8),
+                                ("closed_no_write", e.closed_no_write(), 0x10),
+                                ("closed", e.closed(), 0x18),
+                                ("opened", e.opened(), 0x20),
+                                ("file_moved_from", e.file_moved_from(), 0x40),
+                                ("file_moved_into", e.file_moved_into(), 0x80),
+                                ("file_moved", e.file_moved(), 0xc0),
+                                ("file_created", e.file_created(), 0x100),
+                                ("file_deleted", e.file_deleted(), 0x200),
+                                ("deleted", e.deleted(), 0x400),
+                                ("moved", e.moved(), 0x800),
+                                ("unmounted", e.unmounted(), 0x2000),
+                            ];
+                            for (name, got, bits) in preds {
+                                if got != (m & bits != 0) {
+                                    fail(ctx, "wrong-predicate", format!("event #{yielded} with mask {m:#x}: Event::{name}() is {got}, inotify bit(s) {bits:#x} say {}", m & bits != 0));
+                                    break;
+                                }
                             }
                             for k in kept.iter_mut() {
                                 k.left = k.left.saturating_sub(1);
